@@ -62,7 +62,7 @@ func (d DynFXP) CreateInstruction(name string) (Opcode, error) {
 		opType = FXPDIV
 	}
 
-	return FXP{fpName: name, s: s, f: f, opType: opType, pipeline: new(uint8)}, nil
+	return FXP{fpName: name, s: s, f: f, opType: opType}, nil
 
 }
 
